@@ -1,4 +1,114 @@
-(* C08 — placeholder while the proofs are being written *)
-From Coq Require Import List String.
+(* C08 — in-program macros expand hygienically.
+   Property theorems only; model in Macros/MacroModel.v (faithful expansion [expand_rule] mirroring
+   rule_expand_macro_invocations / invoke_macro / body_items_rename_macro_originated_vars, identifiers carry an origin
+   tag = the model's counterpart of a token span; hygienic reference expansion [hexpand_rule]: every invocation gets a
+   scope number, all identifiers of the macro body are stamped with it, parameters are replaced by the actuals, which keep
+   their scopes, nothing is renamed); proofs in Macros/MacroSim.v, MacroProofs.v, MacroErrors.v, MacroRefuted.v.
+
+   LEVEL: alpha-equivalence of rules (syntactic).  [hygienic_image r' h phi] says that the real expansion r' IS the
+   reference expansion h in which the scoped identifier (iname, isc) is spelled [phi iname isc], with phi injective on the
+   identifiers of h and the identity on call-site identifiers (scope 0) — i.e. r' is a consistent renaming of "write the
+   body at the call site with the parameters substituted and every macro-local variable fresh for this invocation".
+   That an injective renaming of variables does not change the least model is NOT proved here (C06 lists alpha-renaming
+   as not yet a theorem); the tie evaluates both expansions under Engine/Sem.v on every generated program.
+
+   The theorem holds for ARBITRARY nesting depth (up to the implementation's depth budget, beyond which expand_rule
+   returns an error), in body and in head position. *)
+From Coq Require Import List String ZArith Bool.
 From AV Require Import Macros.MacroModel.
-From AV Require Import Macros.MacroEval.
+From AV Require Import Macros.MacroProofs.
+From AV Require Import Macros.MacroErrors.
+From AV Require Import Macros.MacroRefuted.
+Import ListNotations.
+
+(* Hypotheses (all decidable, computed by the tie for every generated program; Macros/MacroModel.v):
+     wf_macros rk HM M:  for every definition d of the table
+       (1) wf_def_ids    its identifiers are not spelled like generated names (no prefix "__")  [and carry d's origin tag]
+       (2) wf_def_noatt  no condition is ATTACHED to a clause (`r(x) if c` — write `r(x), if c`)
+       (3) wf_def_bound  every identifier of the body occurs in a binding position of the body (argument of a clause,
+                         pattern of let / if let / for): it is a "bound" identifier in the sense of MACROS.MD
+       (4) wf_def_rank   it invokes only macros of smaller rank rk (no recursion; any acyclic table has such a rank)
+       (5) wf_head_def   the macros HM used in head position have no identifiers of their own and invoke only such macros
+     wf_rule HM r:  the rule's identifiers are call-site identifiers not spelled like generated names, no `$p` in the rule,
+                    head invocations are in HM.
+   Each of (1), (2), (3), (5) is NECESSARY: see the c08_hygiene_refuted_* theorems below (faithful model; every witness is
+   replayed against the real macro by the tie, corpus/C08.jsonl). *)
+Theorem c08_hygiene : forall M rk HM r r',
+  wf_macros rk HM M = true -> wf_rule HM r = true -> expand_rule M r = OK r' ->
+  exists h phi, hexpand_rule M r = OK h /\ hygienic_image r' h phi.
+Proof. exact hygiene_thm. Qed.
+
+(* Two identifier occurrences that belong to different invocations (isc differs: two invocations of the same or of
+   different macros, an invocation and the one it is nested in, an invocation and the call site) never get the same name. *)
+Theorem c08_two_invocations_disjoint : forall M rk HM r r',
+  wf_macros rk HM M = true -> wf_rule HM r = true -> expand_rule M r = OK r' ->
+  exists h, hexpand_rule M r = OK h /\ List.length (ids_rule r') = List.length (ids_rule h) /\
+    forall p q d, p < List.length (ids_rule h) -> q < List.length (ids_rule h) ->
+      isc (nth p (ids_rule h) d) <> isc (nth q (ids_rule h) d) ->
+      iname (nth p (ids_rule r') d) <> iname (nth q (ids_rule r') d).
+Proof. exact two_invocations_disjoint. Qed.
+
+(* No capture in either direction, parameters unify with the call site. *)
+Theorem c08_no_capture : forall M rk HM r r',
+  wf_macros rk HM M = true -> wf_rule HM r = true -> expand_rule M r = OK r' ->
+  exists h, hexpand_rule M r = OK h /\ List.length (ids_rule r') = List.length (ids_rule h) /\
+    (forall p d, p < List.length (ids_rule h) -> isc (nth p (ids_rule h) d) = 0 ->
+       iname (nth p (ids_rule r') d) = iname (nth p (ids_rule h) d)) /\
+    (forall p q d, p < List.length (ids_rule h) -> q < List.length (ids_rule h) ->
+       iname (nth p (ids_rule h) d) = iname (nth q (ids_rule h) d) -> isc (nth p (ids_rule h) d) = isc (nth q (ids_rule h) d) ->
+       iname (nth p (ids_rule r') d) = iname (nth q (ids_rule r') d)) /\
+    (forall p q d, p < List.length (ids_rule h) -> q < List.length (ids_rule h) ->
+       isc (nth p (ids_rule h) d) = 0 -> isc (nth q (ids_rule h) d) <> 0 ->
+       iname (nth p (ids_rule r') d) <> iname (nth q (ids_rule r') d)).
+Proof. exact no_capture. Qed.
+
+(* A rule that invokes — in its body or in its head, directly or through other macros — a macro that refers to itself
+   (directly or mutually: [diverges]) is never expanded successfully, whatever else the table contains ... *)
+Theorem c08_recursive_rejected : forall M r,
+  (exists m, In m (invs_items (rbody r) ++ flat_map hinvs (rheads r)) /\ diverges M m) ->
+  forall r', expand_rule M r <> OK r'.
+Proof. exact recursive_rejected. Qed.
+
+(* ... and when the invocations are statically well-formed (defined macros, right number and kinds of actuals: [table_ok],
+   [rule_ok]) the result is exactly the dedicated error.  [expand_rule] is a total function (structural recursion on the
+   depth budget 100): it never "expands forever".  The COST of the rejection is not modelled: see known finding
+   recursive_macro_exponential_expansion (2^100 steps for a macro that invokes itself twice in head position). *)
+Theorem c08_recursive_error : forall M HM r, table_ok HM M = true -> rule_ok HM M r = true ->
+  (exists m, In m (invs_items (rbody r) ++ flat_map hinvs (rheads r)) /\ diverges M m) ->
+  expand_rule M r = Err ERecursive.
+Proof. intros M HM r HT HR HB. exact (recursive_error M HM HT r HR HB). Qed.
+
+(* ---- where the code is not hygienic (the model is faithful to it): each hypothesis of c08_hygiene is necessary *)
+Theorem c08_hygiene_refuted_attached_condition :
+  forallb wf_def_ids M_att = true /\ forallb wf_def_bound M_att = true /\ forallb (wf_def_rank (fun m => m)) M_att = true
+  /\ forallb (wf_head_def []) M_att = true /\ wf_rule [] r_att = true /\ not_hygienic M_att r_att.
+Proof. exact refuted_attached_condition. Qed.
+Theorem c08_hygiene_refuted_generated_name : wf_macros (fun m => m) [] M_gen = true /\ not_hygienic M_gen r_gen.
+Proof. exact refuted_generated_name_collision. Qed.
+Theorem c08_hygiene_refuted_renamed_twice :
+  forallb wf_def_noatt M_twice = true /\ forallb wf_def_bound M_twice = true /\ forallb (wf_def_rank (fun m => m)) M_twice = true
+  /\ wf_rule [] r_twice = true /\ not_hygienic M_twice r_twice.
+Proof. exact refuted_renamed_twice. Qed.
+Theorem c08_hygiene_refuted_head_identifier : forallb (wf_def (fun m => m)) M_head = true /\ wf_rule [0] r_head = true /\ not_hygienic M_head r_head.
+Proof. exact refuted_head_identifier_captured. Qed.
+Theorem c08_hygiene_refuted_unbound_identifier :
+  forallb wf_def_ids M_free = true /\ forallb wf_def_noatt M_free = true /\ forallb (wf_def_rank (fun m => m)) M_free = true
+  /\ forallb (wf_head_def []) M_free = true /\ wf_rule [] r_free = true /\ not_hygienic M_free r_free.
+Proof. exact refuted_unbound_identifier_captured. Qed.
+
+(* ---- the hypotheses are satisfiable on a non-trivial table: nested macros, one macro invoked twice in a rule and once more
+   inside another macro, the spelling z used at the call site, in the outer and in the inner macro, an invocation inside a
+   disjunction, nested head macros *)
+Example c08_hypotheses_satisfiable : wf_macros (fun m => m) [2; 3] M_ex = true /\ wf_rule [2; 3] r_ex = true
+  /\ exists r', expand_rule M_ex r_ex = OK r' /\ List.length (ids_rule r') = 26.
+Proof. exact example_wf. Qed.
+(* a recursive table on which c08_recursive_error applies (mutual recursion reached through a third macro) *)
+Example c08_recursive_example : table_ok [] M_rec = true /\ rule_ok [] M_rec r_rec = true /\ expand_rule M_rec r_rec = Err ERecursive.
+Proof. vm_compute. auto. Qed.
+
+Print Assumptions c08_hygiene. Print Assumptions c08_two_invocations_disjoint. Print Assumptions c08_no_capture.
+Print Assumptions c08_recursive_rejected. Print Assumptions c08_recursive_error.
+Print Assumptions c08_hygiene_refuted_attached_condition. Print Assumptions c08_hygiene_refuted_generated_name.
+Print Assumptions c08_hygiene_refuted_renamed_twice. Print Assumptions c08_hygiene_refuted_head_identifier.
+Print Assumptions c08_hygiene_refuted_unbound_identifier.
+Print Assumptions c08_hypotheses_satisfiable. Print Assumptions c08_recursive_example.
